@@ -409,6 +409,22 @@ func weightRoutingGraphs() []histGraph {
 			{Op: "MatMul", Ins: []string{"wb", "wc"}, Outs: []string{"m3"}},
 		}, Outputs: []string{"gram", "g1", "g2", "m1", "m2", "m3", "wa"}}
 	out = append(out, histGraph{"matrix-products", gm, []NamedT{{"x", smallT("f32", []int{3, 3}, 7)}}, []NamedT{{"x", smallT("f32", []int{3, 2}, 7)}}, nil})
+	// pass-through operators (Expand with nothing to expand, one-input Concat, Reshape to the same shape,
+	// Squeeze/Unsqueeze pairs) whose results are INTERMEDIATE values, applied to a caller tensor and to a weight
+	gpi := &GraphJ{Inputs: []VInfoJ{{Name: "x", Dt: "f32", Dims: []any{2, 3}}},
+		Inits: []InitJ{{Name: "w", T: smallT("f32", []int{2, 3}, 4)}, {Name: "tgt", T: idxT("i64", []int{2}, []int{2, 3})}, {Name: "sh", T: idxT("i64", []int{2}, []int{2, 3})}},
+		Nodes: []NodeJ{
+			{Op: "Expand", Ins: []string{"x", "tgt"}, Outs: []string{"ex"}},
+			{Op: "Expand", Ins: []string{"w", "tgt"}, Outs: []string{"ew"}},
+			{Op: "Concat", Attrs: []Attr{{Name: "axis", Type: "i", I: 0}}, Ins: []string{"x"}, Outs: []string{"cx"}},
+			{Op: "Concat", Attrs: []Attr{{Name: "axis", Type: "i", I: 1}}, Ins: []string{"w"}, Outs: []string{"cw"}},
+			{Op: "Reshape", Ins: []string{"x", "sh"}, Outs: []string{"rx"}},
+			{Op: "Add", Ins: []string{"ex", "ew"}, Outs: []string{"y1"}},
+			{Op: "Mul", Ins: []string{"cx", "cw"}, Outs: []string{"y2"}},
+			{Op: "Sub", Ins: []string{"rx", "w"}, Outs: []string{"y3"}},
+			{Op: "Relu", Ins: []string{"x"}, Outs: []string{"y4"}},
+		}, Outputs: []string{"y1", "y2", "y3", "y4"}}
+	out = append(out, histGraph{"passthrough-intermediate", gpi, []NamedT{{"x", smallT("f32", []int{2, 3}, 7)}}, []NamedT{{"x", smallT("f32", []int{3, 3}, 7)}}, nil})
 	// attribute-backed tensors (Scaler / LinearRegressor share storage with the protobuf) with inputs that
 	// already have the attribute's shape
 	gsc := &GraphJ{Inputs: []VInfoJ{{Name: "x", Dt: "f32", Dims: []any{3}}, {Name: "x2", Dt: "f32", Dims: []any{1, 3}}},
